@@ -61,21 +61,28 @@ Anchor(t, r, c)  == t.m.r = r /\ t.m.c = c
 Covered(t, r, c) == InMerge(t, r, c) /\ ~Anchor(t, r, c)
 MergeFits(t)     == ~HasMerge(t) \/ (t.m.r + t.m.rs - 1 <= t.nr /\ t.m.c + t.m.cs - 1 <= t.nc /\ t.m.rs * t.m.cs > 1)
 
+\* Ragged tables: a table may carry rw, the number of cells each row has in the source (<= nc; the
+\* widest row has nc).  The positions a short row lacks are not cells of the source: they read back
+\* as whatever the writer pads with (free); every cell that exists reads back in its row and column.
+RowWidth(t, r) == IF "rw" \in DOMAIN t THEN t.rw[r] ELSE t.nc
+Absent(t, r, c) == c > RowWidth(t, r)
+IsRagged(t) == \E r \in 1..t.nr : RowWidth(t, r) < t.nc
+
 \* what a reader of the output must see: the same nr x nc grid; the text of a merged cell
 \* at its anchor; positions covered by the merge are free (empty or a repeat - unspecified)
 \* t.off shifts the row number used in the cell texts, so that the tables of one document
 \* (off = 0, 3, 6) have different words
-GridCell(t, r, c) == IF Covered(t, r, c) THEN [free |-> TRUE, words |-> <<>>]
+GridCell(t, r, c) == IF Covered(t, r, c) \/ Absent(t, r, c) THEN [free |-> TRUE, words |-> <<>>]
                                          ELSE [free |-> FALSE, words |-> Words(t.kind[r][c], r + t.off, c)]
 Grid(t) == [r \in 1..t.nr |-> [c \in 1..t.nc |-> GridCell(t, r, c)]]
 
 \* the source cells with their texts and spans (covered positions are not cells)
-SrcCell(t, r, c) == [raw |-> Raw(t.kind[r][c], r + t.off, c), kind |-> t.kind[r][c], covered |-> Covered(t, r, c),
+SrcCell(t, r, c) == [raw |-> Raw(t.kind[r][c], r + t.off, c), kind |-> t.kind[r][c], covered |-> Covered(t, r, c), absent |-> Absent(t, r, c),
                      rs |-> IF Anchor(t, r, c) THEN t.m.rs ELSE 1, cs |-> IF Anchor(t, r, c) THEN t.m.cs ELSE 1]
 Src(t) == [r \in 1..t.nr |-> [c \in 1..t.nc |-> SrcCell(t, r, c)]]
 
 \* the "special" features of a table (evidence: non-trivial cases; signatures)
-Special(t) == (\E r \in 1..t.nr, c \in 1..t.nc : t.kind[r][c] # "plain") \/ HasMerge(t) \/ t.hm # "first"
+Special(t) == (\E r \in 1..t.nr, c \in 1..t.nc : t.kind[r][c] # "plain") \/ HasMerge(t) \/ t.hm # "first" \/ IsRagged(t)
 
 \* ---------------------------------------------------------------- headings
 Min(a, b) == IF a < b THEN a ELSE b
